@@ -332,8 +332,58 @@ def oracle_small(c):
     return {"nontrivial": True, "classes": [which]}
 
 
+@st.composite
+def component_case(draw):
+    """well separated components, some of which receive no sample: every sample must lie next to the mean its label names"""
+    K = draw(st.integers(2, 6))
+    d = draw(st.integers(1, 3))
+    mode = draw(st.sampled_from(["tiny_share", "few_samples", "both"]))
+    n = draw(st.integers(1, 2 * K)) if mode != "tiny_share" else draw(st.integers(50, 400))
+    tiny = sorted(draw(st.sets(st.integers(0, K - 1), min_size=1, max_size=K - 1))) if mode != "few_samples" else []
+    return {"K": K, "d": d, "n": n, "tiny": tiny, "seed": draw(st.integers(0, 10 ** 6)), "which": draw(st.sampled_from(["gmm", "gmm", "celeux_one", "gstm"]))}
+
+
+def oracle_component(c):
+    K, d, n, seed = c["K"], c["d"], c["n"], c["seed"]
+    if c["which"] == "gmm":
+        loc = np.array([[100.0 * (k + 1) * (1 if j % 2 == 0 else -1) for j in range(d)] for k in range(K)])
+        covs = np.array([np.eye(d) for _ in range(K)])
+        p = np.ones(K)
+        for k in c["tiny"]:
+            p[k] = 2.0 ** -20
+        rest = [k for k in range(K) if k not in c["tiny"]]
+        p[rest] = (1.0 - 2.0 ** -20 * len(c["tiny"])) / len(rest)
+        if np.sum(p) != 1:
+            p[rest[0]] += 1 - np.sum(p)
+        if np.sum(p) != 1:
+            return {"nontrivial": False, "classes": ["proportions_not_exact"]}
+        label = f"draw_gmm(n={n}, K={K}, d={d}, pvals={p.tolist()})"
+        X, y = D.draw_gmm(n, loc, covs if d > 1 else covs.reshape(K, 1), p, random_state=seed)
+        means, sig, dims = loc, 1.0, slice(None)
+    elif c["which"] == "celeux_one":
+        n = min(n, 6)
+        label = f"celeux_one(n={n}, mu=50)"
+        X, y = D.celeux_one(n, p=2, mu=50.0, random_state=seed)
+        means, sig, dims = np.array([np.ones(5) * 50, -np.ones(5) * 50, np.zeros(5)]), 1.0, slice(0, 5)
+    else:
+        n = max(4, min(n, 9))
+        label = f"gstm(n={n}, alpha=60)"
+        X, y = D.gstm(n, alpha=60.0, df=5, random_state=seed)
+        means, sig, dims = np.array([[1, 1], [1, -1], [-1, 1], [-1, -1]], dtype=float) * 60, 1.0, slice(None)
+    y = np.asarray(y).astype(int)
+    absent = sorted(set(range(len(means))) - set(y.tolist()))
+    for i in range(len(X)):
+        dist = np.abs(X[i, dims] - means[y[i]])
+        limit = 9.0 * sig if not (c["which"] == "gstm" and y[i] == 3) else 60.0
+        if np.max(dist) > limit:
+            raise Violation(f"{label}: sample {i} = {X[i, dims].tolist()} carries label {y[i]} but is {np.max(dist):.1f} away from that "
+                            f"component's mean {means[y[i]].tolist()} (components without any sample in this draw: {absent})")
+    return {"nontrivial": bool(absent), "classes": [c["which"], "absent_component" if absent else "all_present"]}
+
+
 def subs():
-    return [Sub("draw_gmm", gmm_case(), oracle_gmm, 40, 1200, "Gaussian mixtures"),
+    return [Sub("label_names_component", component_case(), oracle_component, 600, 8000, "samples lie at the mean named by their label, also when components receive no sample"),
+            Sub("draw_gmm", gmm_case(), oracle_gmm, 40, 1200, "Gaussian mixtures"),
             Sub("draw_gmm_invalid", bad_gmm_case(), oracle_bad_gmm, 120, 1500, "parameter sets that are not mixtures"),
             Sub("student_t", student_case(), oracle_student, 24, 600, "multivariate Student-t"),
             Sub("fixed_datasets", fixed_case(), oracle_fixed, 24, 600, "gstm, celeux_one, celeux_two"),
